@@ -125,7 +125,7 @@ Example C01_op_hyp_met :
 Proof. vm_compute. repeat split. Qed.
 
 (* ---- namespace.labelSelector over histories of namespaces and objects: C01_Hist ---- *)
-From Verif Require Import C02_Model C02_DynProofs C01_Hist C01_HistSpec C01_HistProofs.
+From Verif Require Import C02_Model C02_DynProofs C01_Hist C01_HistSpec C01_HistProofs C01_Comp C01_CompSpec C01_CompProofs.
 
 (* The statement about the code path, for EVERY configuration (names, event types, jqFilter),
    EVERY initial cluster and EVERY history of object create / modify / delete and namespace
@@ -179,6 +179,38 @@ Example C01_hist_hyp_met :
                 (3, 1, Added, 11); (1, 3, Added, 4); (2, 1, Added, 7); (2, 2, Added, 9);
                 (3, 1, Modified, 22); (3, 1, Deleted, 22)].
 Proof. vm_compute. split; reflexivity. Qed.
+
+(* ---- a second binding with static namespaces beside the labelSelector binding (C01_Comp):
+   bindings whose informers share client-go shared informers of the process-wide factory store
+   (same kind, namespace and selectors).  The companion's Events are exactly the changes of the
+   objects in ITS namespaces, whatever the namespaces' labels do - and therefore whatever
+   informers the other binding creates and cancels meanwhile; no hypothesis. *)
+Theorem C01_comp_events_exact : forall i k, comp_out i k = cexpected i k.
+Proof. exact comp_events_exact. Qed.
+Print Assumptions C01_comp_events_exact.
+
+Theorem C01_comp_ignores_namespaces : forall i k,
+  cexpected i k = cexpected_from k (fst (hcluster0 i)) (filter is_obj_op (h_ops i)).
+Proof. exact comp_ignores_namespaces. Qed.
+Print Assumptions C01_comp_ignores_namespaces.
+
+(* both bindings meet their spec (the first one outside the trigger of F24) *)
+Theorem C01_hist2_partial : forall i k, HT i = false ->
+  HP2 i k (mkHOb (hist_out i) 0 false) (mkHOb (comp_out i k) 0 false) = true.
+Proof. exact hist2_P_partial. Qed.
+Print Assumptions C01_hist2_partial.
+
+(* non-vacuity: namespace 1 matches, stops matching (its informers are cancelled), matches
+   again; the companion names namespaces 1 and 2 and is told about every change there, also
+   while namespace 1 does not match the first binding - which is told nothing then *)
+Example C01_hist2_hyp_met :
+  let i := mkHistIn [] [Added; Modified; Deleted] false [] [(1, true)]
+             [HSet (1, 1, 1); HNs 1 false; HSet (1, 1, 2); HSet (2, 1, 3); HDel 1 1; HNs 1 true; HSet (1, 2, 4)] in
+  let k := mkCompIn [1; 2] [] [Added; Modified; Deleted] false in
+  HT i = false /\
+  hist_out i = [(1, 1, Added, 1); (1, 2, Added, 4)] /\
+  comp_out i k = [(1, 1, Added, 1); (1, 1, Modified, 2); (2, 1, Added, 3); (1, 1, Deleted, 2); (1, 2, Added, 4)].
+Proof. vm_compute. repeat split; reflexivity. Qed.
 
 (* REMARK (not a theorem about P; reported to the lead): the mirror image of F24.  When a
    namespace STOPS matching while it holds selected objects, its informers are cancelled and
